@@ -66,7 +66,7 @@ PrepQuorumPossible(pr, pv) == Card({s \in Ops : Forgeable(s) \/ PrepSent(s, pr, 
 
 (* validRoundChangeForData(rc, height, round, fullData = v) *)
 ValidRCFor(rc, r, v) ==
-    /\ rc.round = r
+    /\ (rc.round = r \/ Weaken = "noRCRoundCheck")
     /\ rc.pr # 0 => (rc.pv = v /\ ValidJust(rc.js, rc.pr, rc.pv) /\ rc.pr <= r)
 (* validRoundChangeForData(rc, height, rc.round, rc.FullData): what BaseMsgValidation checks on reception *)
 ValidRC(rc) == rc.pr # 0 => (ValidJust(rc.js, rc.pr, rc.pv) /\ rc.pr <= rc.round)
@@ -89,7 +89,7 @@ Justified(rcs, pj, pjpr, pjpv, r, v) ==
 ByzJustifiable(r, v) ==
     /\ ValueOK(v)
     /\ (r # 1 /\ Weaken # "noJustificationCheck") =>
-          LET usable == {rc \in sent : /\ rc.type = "rc" /\ rc.round = r
+          LET usable == {rc \in sent : /\ rc.type = "rc" /\ (rc.round = r \/ Weaken = "noRCRoundCheck")
                                        /\ (rc.pr = 0 \/ (rc.pv = v /\ ValidJust(rc.js, rc.pr, rc.pv) /\ rc.pr <= r))}
           IN Card(Signers(usable) \cup {s \in Ops : Forgeable(s)}) >= Q
 
@@ -143,7 +143,7 @@ DoProposal(i, signer, r, v) ==
     LET n == st[i] IN
     /\ n.started
     /\ r >= n.round
-    /\ (Weaken # "noLeaderCheck") => signer = Leader(r)
+    /\ (Weaken # "noLeaderCheck") => signer = Leader(IF Weaken = "leaderOfCurrentRound" THEN n.round ELSE r)
     /\ \/ (n.acc = NoProp /\ r = n.round) \/ r > n.round
        \/ (Weaken = "secondProposalSameRound" /\ r = n.round /\ n.acc.value # v)
     /\ Apply(i, [n EXCEPT !.acc = [round |-> r, value |-> v, from |-> signer], !.round = r],
@@ -171,7 +171,8 @@ DoPrepare(i, s, r, v) ==
            newC   == n.prep \cup {[signer |-> s, round |-> r, value |-> v]}
            after  == Card(Signers(AtRound(newC, r))) >= PQuorum
        IN IF ~before /\ after
-          THEN Apply(i, [n EXCEPT !.prep = newC, !.lpr = r, !.lpv = v],
+          THEN Apply(i, IF Weaken = "noLockOnPrepareQuorum" THEN [n EXCEPT !.prep = newC]
+                        ELSE [n EXCEPT !.prep = newC, !.lpr = r, !.lpv = v],
                      {[type |-> "commit", signer |-> i, round |-> r, value |-> v]})
           ELSE Apply(i, [n EXCEPT !.prep = newC], {})
 
@@ -237,6 +238,24 @@ RecvForgedDecided(i) ==
            THEN Apply(i, [n EXCEPT !.decided = TRUE, !.dval = v, !.round = r, !.dround = r, !.dsigners = Byz], {})
            ELSE UNCHANGED <<st, sent>>
         /\ act' = [name |-> "RecvForgedDecided", to |-> i, round |-> r, value |-> v, kind |-> k]
+
+(* a signature is only valid for the message it was made over: prepares that operator i holds, re-labelled as
+   commits (same signer, same signature bytes), are refused.  Weaken = "sigCache" (verification results cached by
+   signers + signature bytes, ignoring the message) lets them count as commits of their signers. *)
+RecvRelabeled(i) ==
+    LET n == st[i]
+        S == Signers({x \in n.prep : x.round = n.round /\ x.value = n.acc.value}) \cap Honest
+    IN /\ n.started /\ n.acc # NoProp /\ S # {}
+       /\ UseByz("relabel")
+       /\ IF Weaken = "sigCache"
+          THEN LET newC == n.comm \cup {[signer |-> s, round |-> n.round, value |-> n.acc.value] : s \in S}
+                   cs == Signers({x \in newC : x.round = n.round /\ x.value = n.acc.value})
+               IN IF Card(cs) >= CQuorum
+                  THEN Apply(i, [n EXCEPT !.comm = newC, !.decided = TRUE, !.dval = n.acc.value, !.dround = n.round,
+                                          !.dsigners = cs, !.dlocal = TRUE, !.dfrom = n.acc.from], {})
+                  ELSE Apply(i, [n EXCEPT !.comm = newC], {})
+          ELSE UNCHANGED <<st, sent>>
+       /\ act' = [name |-> "RecvRelabeled", to |-> i, signers |-> S, round |-> n.round, value |-> n.acc.value]
 
 (* uponRoundChange: three outcomes - leader proposes / f+1 pull to a higher round / nothing *)
 DoRC(i, m) ==
@@ -307,8 +326,10 @@ PrepareQuorumStep(i) ==
     /\ \E S \in SUBSET (AvailPrep(i) \cup Byz) :
           /\ Card(S) >= PQuorum
           /\ IF S \cap Byz # {} THEN UseByz("prepare") ELSE NoByz
-          /\ Apply(i, [n EXCEPT !.prep = {[signer |-> s, round |-> n.round, value |-> n.acc.value] : s \in S},
-                               !.lpr = n.round, !.lpv = n.acc.value],
+          /\ Apply(i, IF Weaken = "noLockOnPrepareQuorum"
+                      THEN [n EXCEPT !.prep = {[signer |-> s, round |-> n.round, value |-> n.acc.value] : s \in S}]
+                      ELSE [n EXCEPT !.prep = {[signer |-> s, round |-> n.round, value |-> n.acc.value] : s \in S},
+                                     !.lpr = n.round, !.lpv = n.acc.value],
                    {[type |-> "commit", signer |-> i, round |-> n.round, value |-> n.acc.value]})
           /\ act' = [name |-> "PrepareQuorum", to |-> i, signers |-> S, round |-> n.round, value |-> n.acc.value]
 
@@ -326,7 +347,7 @@ CommitQuorumStep(i) ==
 
 Next == \E i \in Honest :
           \/ Start(i) \/ RecvProposal(i) \/ RecvRC(i) \/ Timeout(i) \/ RecvDecided(i)
-          \/ RecvByzProposal(i) \/ RecvByzRC(i) \/ RecvForgedDecided(i)
+          \/ RecvByzProposal(i) \/ RecvByzRC(i) \/ RecvForgedDecided(i) \/ RecvRelabeled(i)
           \/ (Macro /\ (PrepareQuorumStep(i) \/ CommitQuorumStep(i)))
           \/ (~Macro /\ (RecvPrepare(i) \/ RecvCommit(i) \/ RecvByzPrepare(i) \/ RecvByzCommit(i)))
 Spec == Init /\ [][Next]_vars
